@@ -40,7 +40,13 @@ comp!(K2, HashMapStorage<Self>);
 comp!(K3, BTreeStorage<Self>);
 comp!(K4, DefaultVecStorage<Self>);
 comp!(K5, FlaggedStorage<Self, DenseVecStorage<Self>>);
-const NK: usize = 6;
+/// zero-sized marker component
+#[derive(Default, Clone, Debug)]
+pub struct K6;
+impl Component for K6 {
+    type Storage = NullStorage<Self>;
+}
+const NK: usize = 7;
 
 macro_rules! with_k {
     ($k:expr, $f:ident ( $($a:expr),* )) => {
@@ -50,7 +56,8 @@ macro_rules! with_k {
             2 => $f::<K2>($($a),*),
             3 => $f::<K3>($($a),*),
             4 => $f::<K4>($($a),*),
-            _ => $f::<K5>($($a),*),
+            5 => $f::<K5>($($a),*),
+            _ => $f::<K6>($($a),*),
         }
     };
 }
@@ -101,6 +108,7 @@ fn all_resources(world: &World) -> Vec<(ResourceId, &'static str, Borrow)> {
         (ResourceId::new::<MaskedStorage<K3>>(), "MaskedStorage<K3>", probe::<MaskedStorage<K3>>(world)),
         (ResourceId::new::<MaskedStorage<K4>>(), "MaskedStorage<K4>", probe::<MaskedStorage<K4>>(world)),
         (ResourceId::new::<MaskedStorage<K5>>(), "MaskedStorage<K5>", probe::<MaskedStorage<K5>>(world)),
+        (ResourceId::new::<MaskedStorage<K6>>(), "MaskedStorage<K6>", probe::<MaskedStorage<K6>>(world)),
     ]
 }
 
@@ -112,6 +120,7 @@ fn new_world() -> World {
     w.register::<K3>();
     w.register::<K4>();
     w.register::<K5>();
+    w.register::<K6>();
     for i in 0..40u32 {
         let mut b = w.create_entity();
         if i % 2 == 0 {
@@ -125,6 +134,9 @@ fn new_world() -> World {
         }
         if i % 7 == 0 {
             b = b.with(K4(i)).with(K5(i));
+        }
+        if i % 4 == 0 {
+            b = b.with(K6);
         }
         b.build();
     }
@@ -166,9 +178,10 @@ fn probe_named(name: &str) -> Verdict {
         }};
     }
     p!(
-        ReadStorage<K0>, ReadStorage<K1>, ReadStorage<K2>, ReadStorage<K3>, ReadStorage<K4>, ReadStorage<K5>,
-        WriteStorage<K0>, WriteStorage<K1>, WriteStorage<K2>, WriteStorage<K3>, WriteStorage<K4>, WriteStorage<K5>,
+        ReadStorage<K0>, ReadStorage<K1>, ReadStorage<K2>, ReadStorage<K3>, ReadStorage<K4>, ReadStorage<K5>, ReadStorage<K6>,
+        WriteStorage<K0>, WriteStorage<K1>, WriteStorage<K2>, WriteStorage<K3>, WriteStorage<K4>, WriteStorage<K5>, WriteStorage<K6>,
         Entities, Read<LazyUpdate>,
+        (ReadStorage<K6>, WriteStorage<K0>, Entities),
         (ReadStorage<K0>, WriteStorage<K1>),
         (Entities, ReadStorage<K2>, ReadStorage<K3>, WriteStorage<K4>),
         (WriteStorage<K0>, WriteStorage<K5>, Read<LazyUpdate>, Entities),
@@ -179,9 +192,10 @@ fn probe_named(name: &str) -> Verdict {
 }
 
 const PROBE_NAMES: &[&str] = &[
-    "ReadStorage<K0>", "ReadStorage<K1>", "ReadStorage<K2>", "ReadStorage<K3>", "ReadStorage<K4>", "ReadStorage<K5>",
-    "WriteStorage<K0>", "WriteStorage<K1>", "WriteStorage<K2>", "WriteStorage<K3>", "WriteStorage<K4>", "WriteStorage<K5>",
+    "ReadStorage<K0>", "ReadStorage<K1>", "ReadStorage<K2>", "ReadStorage<K3>", "ReadStorage<K4>", "ReadStorage<K5>", "ReadStorage<K6>",
+    "WriteStorage<K0>", "WriteStorage<K1>", "WriteStorage<K2>", "WriteStorage<K3>", "WriteStorage<K4>", "WriteStorage<K5>", "WriteStorage<K6>",
     "Entities", "Read<LazyUpdate>",
+    "(ReadStorage<K6>, WriteStorage<K0>, Entities)",
     "(ReadStorage<K0>, WriteStorage<K1>)",
     "(Entities, ReadStorage<K2>, ReadStorage<K3>, WriteStorage<K4>)",
     "(WriteStorage<K0>, WriteStorage<K5>, Read<LazyUpdate>, Entities)",
@@ -299,6 +313,8 @@ enum Held<'a> {
     R3(ReadStorage<'a, K3>),
     R4(ReadStorage<'a, K4>),
     R5(ReadStorage<'a, K5>),
+    R6(ReadStorage<'a, K6>),
+    W6(WriteStorage<'a, K6>),
     W0(WriteStorage<'a, K0>),
     W1(WriteStorage<'a, K1>),
     W2(WriteStorage<'a, K2>),
@@ -327,13 +343,15 @@ impl<'a> DynamicSystemData<'a> for DynData<'a> {
                 (1, 2) => held.push(Held::R2(SystemData::fetch(world))),
                 (1, 3) => held.push(Held::R3(SystemData::fetch(world))),
                 (1, 4) => held.push(Held::R4(SystemData::fetch(world))),
-                (1, _) => held.push(Held::R5(SystemData::fetch(world))),
+                (1, 5) => held.push(Held::R5(SystemData::fetch(world))),
+                (1, _) => held.push(Held::R6(SystemData::fetch(world))),
                 (2, 0) => held.push(Held::W0(SystemData::fetch(world))),
                 (2, 1) => held.push(Held::W1(SystemData::fetch(world))),
                 (2, 2) => held.push(Held::W2(SystemData::fetch(world))),
                 (2, 3) => held.push(Held::W3(SystemData::fetch(world))),
                 (2, 4) => held.push(Held::W4(SystemData::fetch(world))),
-                (2, _) => held.push(Held::W5(SystemData::fetch(world))),
+                (2, 5) => held.push(Held::W5(SystemData::fetch(world))),
+                (2, _) => held.push(Held::W6(SystemData::fetch(world))),
                 _ => {}
             }
         }
@@ -416,6 +434,12 @@ impl<'a> System<'a> for DynSys {
                         c.0 = c.0.wrapping_add(1);
                     }
                 }
+                Held::W6(s) => {
+                    for _c in (s).join() {
+                        sum += 1;
+                    }
+                }
+                Held::R6(s) => sum += (&*s).join().count() as u64,
                 Held::R0(s) => sum += (&*s).join().map(|c| c.0 as u64).sum::<u64>(),
                 Held::R1(s) => sum += (&*s).join().map(|c| c.0 as u64).sum::<u64>(),
                 Held::R2(s) => sum += (&*s).join().map(|c| c.0 as u64).sum::<u64>(),
@@ -571,7 +595,7 @@ fn run_graph(case: &GraphCase) -> Result<GraphFacts, Violation> {
 
 fn sys_spec() -> impl Strategy<Value = SysSpec> {
     (
-        proptest::array::uniform6(prop_oneof![5 => Just(0u8), 3 => Just(1u8), 2 => Just(2u8)]),
+        proptest::array::uniform7(prop_oneof![5 => Just(0u8), 3 => Just(1u8), 2 => Just(2u8)]),
         prop::bool::weighted(0.5),
         prop::bool::weighted(0.3),
         proptest::collection::vec(any::<u8>(), 0..3),
@@ -616,7 +640,7 @@ pub fn c11() -> Property {
                 shards: |_| 1,
                 run: c11_probe,
                 replay: c11_probe_replay,
-                rule: "exhaustive over 19 SystemData types (ReadStorage / WriteStorage of six storage kinds, Entities, Read<LazyUpdate>, five tuples): fetch the data, then probe every resource of the world with catch_unwind(fetch / fetch_mut); the observed borrow state must be exclusive for exactly writes(), shared for exactly reads(), free otherwise, and free again after the drop; every type is one non-trivial case",
+                rule: "exhaustive over 22 SystemData types (ReadStorage / WriteStorage of seven storage kinds incl. a zero-sized component in NullStorage, Entities, Read<LazyUpdate>, five tuples): fetch the data, then probe every resource of the world with catch_unwind(fetch / fetch_mut); the observed borrow state must be exclusive for exactly writes(), shared for exactly reads(), free otherwise, and free again after the drop; every type is one non-trivial case",
                 exe_env: None,
             },
             SubCheck {
@@ -624,7 +648,7 @@ pub fn c11() -> Property {
                 shards: |t: Tier| t.pick(8, 16),
                 run: c11_graphs,
                 replay: c11_graph_replay,
-                rule: "generated system graphs (2..9 systems, per system none/read/write over six component storages + Entities + Read<LazyUpdate>, dependency edges, barriers, hold time 20-300us) dispatched 1-3 times on pools of {1,2,4,16} threads; each system's accessor is the union of specs' own reads()/writes() declarations and its fetch is specs' own fetch; monitor: per-storage reader/writer counters (a writer never coexists with another accessor), every system ran once per dispatch, dependencies and barriers respected, no panic escapes dispatch; non-trivial = two systems conflicting on a storage with no ordering path between them",
+                rule: "generated system graphs (2..9 systems, per system none/read/write over seven component storages (one zero-sized) + Entities + Read<LazyUpdate>, dependency edges, barriers, hold time 20-300us) dispatched 1-3 times on pools of {1,2,4,16} threads; each system's accessor is the union of specs' own reads()/writes() declarations and its fetch is specs' own fetch; monitor: per-storage reader/writer counters (a writer never coexists with another accessor), every system ran once per dispatch, dependencies and barriers respected, no panic escapes dispatch; non-trivial = two systems conflicting on a storage with no ordering path between them",
                 exe_env: None,
             },
         ],
